@@ -272,10 +272,18 @@ def serveOp (withOpt : Bool) (ls qs : String) (impl : Option String) : String ×
         bad.getD "ok"
     ("#".intercalate outs, verdict)
 
-/-- the `loc` op (C03): `FindLocation` for the name `ex.com` on every storage configuration -/
-def locOp (ls cs : String) (impl : Option String) : Out :=
+/-- the labels of a packed name -/
+def wireLabels : Nat → Bytes → List Bytes
+  | 0, _ => []
+  | _, [] => []
+  | fuel + 1, n :: rest =>
+    if n = 0 then [] else (rest.take n.toNat) :: wireLabels fuel (rest.drop n.toNat)
+
+/-- the `loc` / `locq` ops (C03): `FindLocation` for a name (`ex.com` unless given) on every
+storage configuration -/
+def locOp (ls cs : String) (impl : Option String)
+    (qname : Bytes := [2, 0x65, 0x78, 3, 0x63, 0x6f, 0x6d, 0]) : Out :=
   let lines := (ls.splitOn ";").filterMap Bytes.ofHex
-  let qname : Bytes := [2, 0x65, 0x78, 3, 0x63, 0x6f, 0x6d, 0]
   let clients : List (List UInt8 × Option Ecs) := (cs.splitOn ";").filterMap fun c =>
     if c.startsWith "r" then (Bytes.ofHex (c.drop 1).toString).map fun ip => (ip, none)
     else if c.startsWith "e" then
@@ -308,7 +316,7 @@ def locOp (ls cs : String) (impl : Option String) : Out :=
           else (clients.zipIdx.zip rs).findSome? fun (((ip, ecs), k), r) =>
             let client : Spec.Client :=
               { resolver := ipToNat ip, ecs := ecs.map fun e => (e.family, e.sourceMask, e.scope, ipToNat (to16 e.addr)) }
-            let lr := Spec.locate z [[0x65, 0x78], [0x63, 0x6f, 0x6d]] client
+            let lr := Spec.locate z (wireLabels qname.length qname) client
             let want := Bytes.hex lr.loc ++ "/" ++ (match lr.scope with | some sc => toString sc | none => "-")
             if r = want then none else some s!"FAIL:{name}-c{k}:want={want},got={r}"
       bad.getD "ok"
@@ -433,8 +441,14 @@ def handle (st : St) (op : String) (args : List String) (impl : Option String) :
     some (st, { model := "A{" ++ ma ++ "}B{" ++ mb ++ "}", spec := v })
   | "loc", [ls, cs] =>
     some (st, locOp ls cs impl)
+  | "locq", [ls, cs, q] =>
+    (Bytes.ofHex q).map fun qn => (st, locOp ls cs impl qn)
   | "dflt", [l] =>
     (Bytes.ofHex l).map fun b => (st, dfltOp b)
+  | "wildsafe", [] =>
+    -- the model's byte classes, one digit per octet value
+    some (st, { model := String.ofList ((List.range 256).map fun n =>
+      if Name.wildsafeByte n.toUInt8 then '1' else '0') })
   | "servestats", [ls, qs] =>
     some (st, { model := serveStatsOp ls qs impl })
   | _, _ => none
